@@ -153,6 +153,12 @@ def gen_world(seed, tier):
             if rng.random() < 0.5 and rel:
                 rr = rng.choice(rel)
                 terms = [[rr.get("p", rr.get("y")), rng.choice([1, -1])]] + [t for t in terms if t[0] != rr.get("p", rr.get("y"))][:1]
+            if rng.random() < 0.25:
+                # an expression may mention a variable more than once: the coefficients add up
+                t0 = rng.choice(terms)
+                terms = terms + [[t0[0], rng.choice([1, 2, -1])]]
+                if rng.random() < 0.3:
+                    terms = terms + [[t0[0], 1]]
             ops.append({"op": "objective", "terms": terms, "sense": rng.choice(["minimize", "maximize", "min", "max"]),
                         "const": rng.choice([0, 0, 2.5])})
         ops.append({"op": "optimize"})
